@@ -184,7 +184,7 @@ def gen_state(rng, p, k, ncomp):
     u = rng.random()
     if u < 0.25:      # moderately dry root zone: between wilting point and field capacity
         s.th = np.array([rng.uniform(p.th_wp[i], p.th_fc[i]) for i in range(ncomp)])
-    elif u < 0.27:    # out-of-bounds start: a compartment below air dry (exercises the `Sink < 0` clamp)
+    elif u < 0.33:    # out-of-bounds start: a compartment below air dry (exercises the `Sink < 0` clamp)
         i = rng.randrange(ncomp); s.th[i] = p.th_dry[i] - rng.choice([0.01, 0.001])
     s.t_early_sen = rng.choice([0, 0, 0, 1, 5])
     s.aer_days = rng.choice([0, 0, 1, 2, lag, lag - 1 if lag >= 1 else 0])
